@@ -563,6 +563,29 @@ fn run_corr(args: &Args) -> Report {
         ));
     }
 
+    // IdnaOK / display round trip evaluated on the implementation for the fixed host premise pool (a mismatch,
+    // unlike the note above, because the pool does not depend on the seed): a domain that Host::parse returns is
+    // lower-case ASCII without forbidden domain code points, and parsing its display text returns it again
+    {
+        let mut n = 0u64;
+        for h in host_premise_pool() {
+            if let Ok(Host::Domain(d)) = Host::parse(&h) {
+                n += 1;
+                let chars_ok = d.chars().all(|c| c.is_ascii() && !c.is_ascii_uppercase() && !spec::forbidden_domain(c));
+                let back = Host::parse(&d);
+                let verdict = if !chars_ok {
+                    format!("domain {:?} has a non-ASCII, upper-case or forbidden domain code point", d)
+                } else if back != Ok(Host::Domain(d.clone())) {
+                    format!("display text {:?} parses to {:?}", d, back)
+                } else {
+                    "IdnaOK".to_string()
+                };
+                rep.case("premise-idnaok", &format!("parse {}", hexs(&h)), "IdnaOK", &verdict, true, if verdict == "IdnaOK" { "premise:ok" } else { "premise:violated" });
+            }
+        }
+        rep.exhaustive.push(format!("premise-idnaok: {} domains returned by Host::parse on the fixed host premise pool", n));
+    }
+
     // the regenerated literal sets against the behaviour of the crate
     let t = drv.ask("tables");
     let parts: Vec<&str> = t.split(' ').collect();
